@@ -14,6 +14,8 @@
    leaves it; only the wrapper's own journal may differ.                                                      *)
 From Coq Require Import List ZArith Bool String Lia.
 From PV Require Import Base.Exn Model.WrapperSem Spec.WrapperSpec Model.WrapperStack Proofs.WrapperProofs Gen.Wrappers.
+From PV Require Import Model.WrapperKw Proofs.WrapperKwProofs.
+From PV Require Gen.Pedantic Proofs.PedanticBase.
 Import ListNotations.
 Open Scope list_scope.
 
@@ -28,6 +30,37 @@ Theorem C18_class_shortcuts :
   rename_dict_is_last_wins_comprehension = true.
 Proof. vm_compute. repeat split; auto 10. Qed.
 Print Assumptions C18_class_shortcuts.
+
+(* the keyword-only test of require_kwargs is taken from the call protocol regenerated for C03/C05 (Gen/Pedantic.v:
+   should_have_kwargs, args_without_self, assert_uses_kwargs); it is a member of the family its closed forms are proved for *)
+Theorem C18_kw_protocol_good : PedanticBase.pc_good Gen.Pedantic.pedantic_cfg = true.
+Proof. vm_compute. reflexivity. Qed.
+Print Assumptions C18_kw_protocol_good.
+
+(* "keyword call" implies that the code's own test passes, for decoration with the @ syntax (the text '@require_kwargs'
+   is in the source): nothing is passed positionally, or only the receiver of a method - when require_kwargs sits
+   directly on `def m(self, ...)` or at least two decorator lines precede the def (these two are what the code looks at
+   to decide that the first positional is a receiver) *)
+Definition keyword_call (s : kw_shape) (a : args) : Prop :=
+  a = [] \/ (List.length a = 1%nat /\ (ks_first_self s = true \/ (2 <= ks_n_at s)%nat)).
+
+Theorem C18_require_kwargs_test_passes_on_keyword_calls : forall s a k,
+  ks_rk_text s = true -> keyword_call s a -> kw_test_of Gen.Pedantic.pedantic_cfg s a k = None.
+Proof.
+  intros s a k Ht [->|[Hl Hs]].
+  - apply (kw_test_none _ C18_kw_protocol_good). cbn. lia.
+  - apply (kw_test_none _ C18_kw_protocol_good). rewrite (strip_at_syntax _ C18_kw_protocol_good s Ht Hs). lia.
+Qed.
+Print Assumptions C18_require_kwargs_test_passes_on_keyword_calls.
+
+(* ... and otherwise it raises PedanticCallWithArgsException: the guard above is exact for ordinary functions
+   (not *args in the text, not an exempt dunder name, no property setter) *)
+Theorem C18_require_kwargs_test_fails_on_positional_calls : forall s a k,
+  Pedantic.should_have_kwargs Gen.Pedantic.pedantic_cfg (fn_of_shape s) = true ->
+  (strip_of Gen.Pedantic.pedantic_cfg s < List.length a)%nat ->
+  kw_test_of Gen.Pedantic.pedantic_cfg s a k = Some PCallWithArgsC.
+Proof. intros. now apply (kw_test_some _ C18_kw_protocol_good). Qed.
+Print Assumptions C18_require_kwargs_test_fails_on_positional_calls.
 
 (* ---- transparency, one decorator ------------------------------------------------------------------------------ *)
 Section Transparent.
@@ -59,12 +92,15 @@ Section Transparent.
   Theorem C18_transparent_overrides : same_as g (use_wrapped d_overrides cx).
   Proof. apply behaves_use. exact (meets_overrides Sigma cx g Htwin). Qed.
 
-  (* every call that passes the keyword-only test *)
-  Theorem C18_transparent_require_kwargs_keyword_call : forall a k,
-    cx_assert_kw cx a k = None -> same_as_at g (use_wrapped d_require_kwargs cx) a k.
+  (* every keyword call, when the wrapper's test is the regenerated one applied to what require_kwargs sees of the
+     function (shape s) and the function was decorated with the @ syntax *)
+  Theorem C18_transparent_require_kwargs_keyword_call : forall s a k,
+    (forall a k, cx_assert_kw cx a k = kw_test_of Gen.Pedantic.pedantic_cfg s a k) ->
+    ks_rk_text s = true -> keyword_call s a ->
+    same_as_at g (use_wrapped d_require_kwargs cx) a k.
   Proof.
-    intros a k H s. destruct (behaves_use _ _ _ (meets_require_kwargs Sigma cx g Hused Htwin g) a k s) as [w E].
-    cbn [spec_apply] in E. rewrite H in E. eauto.
+    intros s a k Hcx Ht Hk st. destruct (behaves_use _ _ _ (meets_require_kwargs Sigma cx g Hused Htwin g) a k st) as [w E].
+    cbn [spec_apply] in E. rewrite Hcx, (C18_require_kwargs_test_passes_on_keyword_calls s a k Ht Hk) in E. eauto.
   Qed.
 
   (* every call none of whose keywords is listed in a Rename rule *)
@@ -359,6 +395,34 @@ Theorem C18_class_classmethod_via_instance_refuted :
 Proof. exists MClassM, AInst, (VObj 1), (VCls 0), (VCls 1), [VObj 3], [VCls 0; VObj 3]. vm_compute. repeat split; reflexivity. Qed.
 Print Assumptions C18_class_classmethod_via_instance_refuted.
 
+(* Sub().s(2) and Sub().c(3): the same through an instance of a subclass *)
+Theorem C18_class_static_via_subclass_instance_refuted :
+  exists m acc self cls0 sub a o, m = MStatic /\ acc = ASubInst /\ class_access_ok m acc = false /\
+    orig_args m acc self cls0 sub a = Some o /\
+    fst (class_call forall_cfg NTrace (ex_cx (ex_fn 1)) (ex_fn 1) m acc self cls0 sub a [] ex_s0) = RExc TypeErrorC (XFresh 6) /\
+    fst (use_callee (ex_fn 1) o [] ex_s0) = ROk (VObj 100).
+Proof. exists MStatic, ASubInst, (VObj 1), (VCls 0), (VCls 1), [VObj 2], [VObj 2]. vm_compute. repeat split; reflexivity. Qed.
+Print Assumptions C18_class_static_via_subclass_instance_refuted.
+
+Theorem C18_class_classmethod_via_subclass_instance_refuted :
+  exists m acc self cls0 sub a o, m = MClassM /\ acc = ASubInst /\ class_access_ok m acc = false /\
+    orig_args m acc self cls0 sub a = Some o /\
+    fst (class_call forall_cfg NTrace (ex_cx (ex_fn 2)) (ex_fn 2) m acc self cls0 sub a [] ex_s0) = RExc TypeErrorC (XFresh 6) /\
+    fst (use_callee (ex_fn 2) o [] ex_s0) = ROk (VObj 100).
+Proof. exists MClassM, ASubInst, (VObj 1), (VCls 0), (VCls 1), [VObj 3], [VCls 1; VObj 3]. vm_compute. repeat split; reflexivity. Qed.
+Print Assumptions C18_class_classmethod_via_subclass_instance_refuted.
+
+(* the five excluded cells are exactly the refuted ones *)
+Theorem C18_class_access_ok_exact : forall m acc,
+  class_access_ok m acc = false <->
+  In (m, acc) [(MStatic, AInst); (MStatic, ASubInst); (MClassM, AInst); (MClassM, ASubInst); (MClassM, ASubClass)].
+Proof.
+  intros m acc. split.
+  - destruct m, acc; cbn; intros H; try discriminate H; tauto.
+  - cbn. intros H. repeat (destruct H as [H|H]; [inversion H; reflexivity|]). contradiction.
+Qed.
+Print Assumptions C18_class_access_ok_exact.
+
 (* Sub.c(3): the function receives the decorated class instead of Sub *)
 Theorem C18_class_classmethod_frozen_cls_refuted :
   exists m acc self cls0 sub a o, class_access_ok m acc = false /\ orig_args m acc self cls0 sub a = Some o /\
@@ -372,22 +436,27 @@ Print Assumptions C18_class_classmethod_frozen_cls_refuted.
 
 (* ---- require_kwargs on top of another wrapper of a method, applied by call ------------------------------------------------ *)
 (* Full statement (FALSE on the current source, open known finding C18-K12): in every stack, every call that passes
-   nothing positionally except self goes through require_kwargs unchanged.
-   Proved (C18_transparent_require_kwargs_keyword_call, C18_compose_any_stack) for the calls on which the code's own
-   keyword-only test answers "keyword call" (cx_assert_kw cx a k = None).  That test does not count the first `strip`
-   positional arguments; the code derives strip from the source text and from getfullargspec of what it decorates:
-   1 for `@require_kwargs @trace def m(self, x)`, but 0 for K.m = require_kwargs(trace(K.m)), where self then counts
-   as a positional argument. *)
-Definition kw_test (strip : nat) : args -> kwargs -> option exn :=
-  fun a _ => if Nat.ltb strip (List.length a) then Some PCallWithArgsC else None.
-Definition ex_cx_kw (strip : nat) (f : cdesc jst) : ctx jst :=
-  Build_ctx (fun _ => f) (fun _ => VNone) [] (fun _ _ => false) (fun _ _ => true) (kw_test strip) raise_warning_prog 1.
+   nothing positionally except the receiver goes through require_kwargs unchanged.
+   Proved (C18_transparent_require_kwargs_keyword_call) for decoration with the @ syntax.  Refuted for
+   K.m = require_kwargs(trace(K.m)): the source has no decorator line and getfullargspec of trace's wrapper shows no
+   `self`, so the regenerated test counts the receiver (strip_of = 0, computed from Gen/Pedantic.v, not chosen here). *)
+Definition shape_at (n_at : nat) (first_self : bool) : kw_shape :=
+  {| ks_name := "m"; ks_first_self := first_self; ks_star_args := false; ks_staticmethod := false; ks_setter := false;
+     ks_rk_text := true; ks_n_at := n_at |}.
+Definition shape_by_call_over_wrapper : kw_shape :=
+  {| ks_name := "m"; ks_first_self := false; ks_star_args := false; ks_staticmethod := false; ks_setter := false;
+     ks_rk_text := false; ks_n_at := 0 |}.
+Definition ex_cx_kw (s : kw_shape) (f : cdesc jst) : ctx jst :=
+  Build_ctx (fun _ => f) (fun _ => VNone) [] (fun _ _ => false) (fun _ _ => true)
+            (kw_test_of Gen.Pedantic.pedantic_cfg s) raise_warning_prog 1.
 
 Theorem C18_require_kwargs_by_call_over_wrapped_method_refuted :
   exists self k,
     let m := ex_fn 1 in          (* def m(self, **kw) as far as binding goes *)
-    fst (use_stacked d_require_kwargs (ex_cx_kw 0 m) d_trace (ex_cx m) [self] k ex_s0) = RExc PCallWithArgsC (XFresh 1) /\
-    fst (use_stacked d_require_kwargs (ex_cx_kw 1 m) d_trace (ex_cx m) [self] k ex_s0) = ROk (VObj 100) /\
+    strip_of Gen.Pedantic.pedantic_cfg shape_by_call_over_wrapper = 0%nat /\
+    fst (use_stacked d_require_kwargs (ex_cx_kw shape_by_call_over_wrapper m) d_trace (ex_cx m) [self] k ex_s0)
+      = RExc PCallWithArgsC (XFresh 1) /\
+    fst (use_stacked d_require_kwargs (ex_cx_kw (shape_at 2 false) m) d_trace (ex_cx m) [self] k ex_s0) = ROk (VObj 100) /\
     fst (use_callee m [self] k ex_s0) = ROk (VObj 100).
 Proof. exists (VObj 50), [("x"%string, VObj 5)]. vm_compute. repeat split; reflexivity. Qed.
 Print Assumptions C18_require_kwargs_by_call_over_wrapped_method_refuted.
